@@ -1499,7 +1499,7 @@ class Stream(AbstractStream):
             if energy_balance: H = sum([i.H for i in streams], Q)
             self.P = P = min([i.P for i in streams])
             if conserve_phases:
-                phases = self.phase + ''.join([i.phase for i in others])
+                phases = self.phase + ''.join([i.phase for i in streams]) # Heat objects and empty entries have no phase
                 self.phases = phases
             if vle:
                 self._imol.mix_from([i._imol for i in streams])
@@ -1517,7 +1517,7 @@ class Stream(AbstractStream):
                         try:
                             self.H = H
                         except:
-                            self.phases = self.phase + ''.join([i.phase for i in others])
+                            self.phases = self.phase + ''.join([i.phase for i in streams])
                             self._imol.mix_from([i._imol for i in streams])
                             self.H = H
                 else:
